@@ -119,10 +119,64 @@ for cname, cfile, csig, crules, cdef, cls in CURVES:
     bi["tiers"] = dict(quick=dict(defines={"ND_MAX": 1048576}))
     UNITS.append(bi)
 
+SI = "src/ompl/base/src/SpaceInformation.cpp"
+SI_RULES = [
+    (r"assert\(states\.size\(\) >= count\);", "__CPROVER_assert(states_size >= count, \"states.size() >= count\");", 1),
+    (r"isValid\(states\.front\(\)\)", "isValidIdx(0)", 0),
+    (r"isValid\(states\[([^\]]+)\]\)", r"isValidIdx(\1)", 1),
+    (r"\bfirstInvalidStateIndex\b", "(*firstInvalidStateIndex)", 0),
+]
+UNITS.append(dict(
+    name="c05_si_checkMotion_firstInvalid",
+    template="C05/si_checkMotion_idx.c",
+    functions=["ompl::base::SpaceInformation::checkMotion(const std::vector<State*>&, unsigned, unsigned&)"],
+    sources=[dict(name="si_checkMotion_idx", file=SI,
+                  sig=r"bool\s+ompl::base::SpaceInformation::checkMotion\s*\(const std::vector<State \*> &states, unsigned int count,\s*unsigned int &firstInvalidStateIndex\)\s*const",
+                  rules=SI_RULES,
+                  loops={1: """
+__CPROVER_assigns(i, checked_G, any_invalid, checks_at_G, last_invalid_idx)
+__CPROVER_loop_invariant(i <= count && !any_invalid && *firstInvalidStateIndex == old_idx)
+__CPROVER_loop_invariant(((unsigned)G < i) ==> (checked_G && VG && checks_at_G == 1))
+__CPROVER_loop_invariant(((unsigned)G >= i) ==> (!checked_G && checks_at_G == 0))
+__CPROVER_decreases(count - i)
+"""})],
+    enforce=["si_checkMotion_idx"], replace=["isValidIdx"], backend="minisat",
+    confirm=dict(unwind=7, defines={}),
+    canaries=[dict(name="reports_next_index", where="body:si_checkMotion_idx", rx=r"= i;", repl="= i + 1;")],
+))
+UNITS.append(dict(
+    name="c05_si_checkMotion_bisection",
+    template="C05/si_checkMotion_bisect.c",
+    functions=["ompl::base::SpaceInformation::checkMotion(const std::vector<State*>&, unsigned)"],
+    sources=[dict(name="si_checkMotion", file=SI,
+                  sig=r"bool\s+ompl::base::SpaceInformation::checkMotion\s*\(const std::vector<State \*> &states, unsigned int count\)\s*const",
+                  rules=SI_RULES + [
+                      (r"std::queue<std::pair<int, int>> pos;", "", 1),
+                      (r"\bpos\.emplace\(", "pos_emplace(", 3),
+                      (r"\bpos\.empty\(\)", "pos_empty()", 1),
+                      (r"\bpos\.front\(\)", "pos_front()", 1),
+                      (r"\bpos\.pop\(\)", "pos_pop()", 1),
+                      (r"std::pair<int, int> x", "pair_int_int x", 1),
+                      (r"pos_emplace\(0, count - 1\)", "pos_emplace(0, (int)(count - 1))", 1),
+                  ],
+                  loops={1: """
+__CPROVER_assigns(checked_G, checks_at_G, any_invalid, last_invalid_idx, Q_n, Q_cov, Q_wf, Q_len, Q_front_covers, Q_front_val)
+__CPROVER_loop_invariant(!any_invalid && Q_wf && 0 <= Q_cov && Q_cov <= Q_n && Q_n <= Q_len && Q_len <= ND - 2)
+__CPROVER_loop_invariant((checked_G && VG && checks_at_G == 1 && Q_cov == 0) || (!checked_G && checks_at_G == 0 && Q_cov == 1))
+__CPROVER_decreases(Q_len)
+"""})],
+    enforce=["si_checkMotion"], replace=["isValidIdx", "pos_empty", "pos_emplace", "pos_front", "pos_pop"],
+    backend="cadical", timeout=900,
+    tiers=dict(quick=dict(defines={"COUNT_MAX": "1048576u"})),
+    confirm=dict(unwind=9, defines={"COUNT_MAX": "8u"}),
+    canaries=[dict(name="skips_right_neighbour", where="body:si_checkMotion", rx=r"x\.second > mid \+ 1", repl="x.second > mid + 2")],
+))
+
 ASSUMPTIONS = [
     "s1 is valid (documented precondition of checkMotion); validity checker and interpolate are deterministic user callbacks",
     "0 <= validSegmentCount <= 1e9 (so that int arithmetic on indices cannot overflow)",
     "FDIV(a,b) = (double)a/(double)b is modelled by IEEE facts only: in [0,1) for 0<=a<b, ==0 for a==0, ==1 for a==b, not NaN for b!=0",
+    "SpaceInformation::checkMotion(states,count): the state vector is modelled as the identity sequence (isValid(states[i]) -> validity of index i); count <= 1e9",
     "valid_/invalid_ counters below 4e9 (no unsigned wrap-around)",
     "Dubins/ReedsShepp/Dubins3D: interpolate(s1,s2,t,firstTime,path,out) / (…,*path,out) is treated as interpolate(s1,s2,t,out) (cached curve = optimisation); Dubins3D: last-valid clauses (C05.c/d) are stated only when a connecting path exists, the counter clause (C05.e) unconditionally",
 ]
@@ -133,3 +187,19 @@ TRUSTED = [
     "CBMC 6.11 goto-instrument DFCC + kissat",
 ]
 NOT_COVERED = []
+
+C05_CPPS = ["src/ompl/base/src/DiscreteMotionValidator.cpp", "src/ompl/base/spaces/src/DubinsStateSpace.cpp",
+            "src/ompl/base/spaces/src/ReedsSheppStateSpace.cpp", "src/ompl/base/src/SpaceInformation.cpp"]
+NATIVE = [
+    dict(name="c05_native_exhaustive", driver="native/c05_native.cpp", link_ompl=True, unit_cpps=C05_CPPS,
+         args=lambda tier, seed: ["exhaust", 14 if tier == "quick" else 40], timeout=900),
+]
+
+
+def replay(ur, scratch, seed):
+    """Search the real classes for a failing input (all segment counts <= 24, all one/two-invalid patterns)."""
+    from vf import native as N, cbmc as C
+    exe = N.build_driver("native/c05_native.cpp", scratch, link_ompl=True, unit_cpps=C05_CPPS)
+    r = C.run_cmd([exe, "exhaust", "24"], 600, env=N.run_env())
+    return dict(found=(r["rc"] == 1), driver="native/c05_native.cpp", args=["exhaust", 24], link_ompl=True, unit_cpps=C05_CPPS,
+                output=r["out"][-2000:])
